@@ -653,7 +653,7 @@ impl<T: Sc, F: Factory<T>> Runner<T, F> {
             }
             Op::ConcurrentQueries(k) => {
                 let p = self.subject.as_ref().unwrap();
-                let overlapped = self.ctl.overlap.load(std::sync::atomic::Ordering::SeqCst);
+                let overlapped = self.ctl.overlap.load(std::sync::atomic::Ordering::SeqCst) && crate::ctl::in_shuttle_thread();
                 let ctl = self.ctl.clone();
                 match guarded(|| concurrent_queries(p, (*k).max(1) as usize, overlapped, &|| ctl.log_len())) {
                     Ok((reference, observed, ref_ev_to)) => {
